@@ -129,6 +129,7 @@ int sim_io_wait_readable(int fd, uint64_t timeout_ns);
 void sim_mark_io(void);
 // epoll registrations seen at the seam: returns events mask currently registered for fd (0 if none)
 uint32_t sim_epoll_registered(int fd);
+extern int sim_epoll_ctl_ebadf;
 extern uint64_t (*sim_seq_cb)(void);  // harness global event counter for I/O call stamps
 
 /* ---- termination callbacks (set by harness) ---- */
